@@ -5,6 +5,7 @@ package interp
 import (
 	"encoding/json"
 	"fmt"
+	"path/filepath"
 )
 
 func zz(name string) string { return ZZ + "." + name }
@@ -183,6 +184,10 @@ func init() {
 			out[k] = e.Kind + "|" + e.Data
 		}
 		return out
+	})
+	reg("VFile", func(fr *frame, a []value) value {
+		fr.i.x.declared["vfile:"+filepath.Clean(a[0].(string))] = true
+		return nil
 	})
 	reg("Unreachable", func(fr *frame, a []value) value {
 		panic(unsupported("harness reached Unreachable: " + fmt.Sprint(a[0])))
